@@ -6,6 +6,8 @@ import (
 	"context"
 	"fmt"
 	"runtime"
+	"sort"
+	"strings"
 	"sync"
 	"sync/atomic"
 	"testing"
@@ -253,11 +255,43 @@ type c17Outcome struct {
 	unorderedMax int
 	final        []c17Snap
 	aborted      bool
+	stalled      bool // no progress towards the expected Tick calls (undiagnosed)
+	lostTicks    bool // diagnosed: the process was quiescent with Tick calls still missing
+}
+
+// c17Quiescent reports whether, in three goroutine dumps 100 ms apart, no
+// goroutine other than the caller is running or runnable: whatever has not
+// happened by then will not happen without a further input. Only meaningful
+// while nothing else runs in the process (the sequential diagnosis phase).
+func c17Quiescent() bool {
+	for round := 0; round < 3; round++ {
+		buf := make([]byte, 1<<20)
+		n := runtime.Stack(buf, true)
+		first := true
+		for _, blk := range strings.Split(string(buf[:n]), "\n\n") {
+			if !strings.HasPrefix(blk, "goroutine ") {
+				continue
+			}
+			if first { // the caller
+				first = false
+				continue
+			}
+			hdr := blk
+			if i := strings.Index(blk, "\n"); i >= 0 {
+				hdr = blk[:i]
+			}
+			if strings.Contains(hdr, "[running") || strings.Contains(hdr, "[runnable") || strings.Contains(hdr, "[syscall") {
+				return false
+			}
+		}
+		time.Sleep(100 * time.Millisecond)
+	}
+	return true
 }
 
 // c17RunScript executes one script against the real Ticker and
 // ScheduleRetransmissions. pre enables pre-body instrumentation (oracle pass).
-func c17RunScript(r *verifkit.Run, sc c17Script, desc string, pre bool, shuffle func(n int, swap func(i, j int))) c17Outcome {
+func c17RunScript(r *verifkit.Run, sc c17Script, desc string, pre bool, shuffle func(n int, swap func(i, j int)), diagnose bool) c17Outcome {
 	var out c17Outcome
 	ticks := make(chan uint64)
 	ticker := NewTicker(ticks)
@@ -301,6 +335,7 @@ func c17RunScript(r *verifkit.Run, sc c17Script, desc string, pre bool, shuffle 
 	settle := func(extraSpin bool) bool {
 		deadline := time.Now().Add(watchdog)
 		lastProgress := time.Now()
+		stallStart := time.Now()
 		lastSum := -1
 		spins := 0
 		extraLeft := 0
@@ -333,6 +368,7 @@ func c17RunScript(r *verifkit.Run, sc c17Script, desc string, pre bool, shuffle 
 			if sum != lastSum {
 				lastSum = sum
 				lastProgress = time.Now()
+				stallStart = time.Now()
 			} else if time.Since(lastProgress) > 40*time.Millisecond {
 				// Nothing moves although calls are parked: an implementation
 				// that serialises Tick calls across the retransmit function
@@ -349,6 +385,20 @@ func c17RunScript(r *verifkit.Run, sc c17Script, desc string, pre bool, shuffle 
 			}
 			if time.Now().After(deadline) {
 				return false
+			}
+			if lastSum == sum && time.Since(stallStart) > 4*time.Second {
+				// nothing has moved for seconds although nothing is parked
+				if !diagnose {
+					out.stalled = true
+					return false
+				}
+				if c17Quiescent() {
+					// every goroutine is parked and Tick calls are still
+					// missing: those ticks never reached the strategy
+					out.lostTicks = true
+					return true
+				}
+				stallStart = time.Now()
 			}
 			spins++
 			if spins%64 == 0 {
@@ -371,6 +421,11 @@ func c17RunScript(r *verifkit.Run, sc c17Script, desc string, pre bool, shuffle 
 			}
 			wit := map[string]interface{}{"registration": i, "strategy": g.kind, "at": where,
 				"tick_calls": s.bodyDone, "retransmissions": s.invoked, "ticks_delivered_live_min": lo, "ticks_delivered_live_max": hi}
+			if out.lostTicks && s.bodyDone < lo {
+				r.Violation(g.kind+":tick-never-reached-the-strategy",
+					fmt.Sprintf("%d ticks were dispatched to this live registration but its strategy was consulted only %d times, and every goroutine of the process is parked", lo, s.bodyDone), desc, wit)
+				continue
+			}
 			if s.bodyDone > hi {
 				if g.cancelled {
 					r.Violation(g.kind+":tick-after-context-end",
@@ -486,7 +541,9 @@ func c17RunScript(r *verifkit.Run, sc c17Script, desc string, pre bool, shuffle 
 				}
 			}
 			if !settle(extra) {
-				r.Inconclusive("tick callbacks did not settle within the watchdog: " + desc)
+				if !out.stalled {
+					r.Inconclusive("tick callbacks did not settle within the watchdog: " + desc)
+				}
 				out.aborted = true
 				return out
 			}
@@ -502,7 +559,9 @@ func c17RunScript(r *verifkit.Run, sc c17Script, desc string, pre bool, shuffle 
 		g.release(shuffle)
 	}
 	if !settle(true) {
-		r.Inconclusive("tick callbacks did not settle within the watchdog (final): " + desc)
+		if !out.stalled {
+			r.Inconclusive("tick callbacks did not settle within the watchdog (final): " + desc)
+		}
 		out.aborted = true
 		return out
 	}
@@ -533,14 +592,28 @@ func c17ScheduleWorkload(r *verifkit.Run, repeats int, pre bool) {
 	var forced, overl, unordered int64
 	var maxIn int64
 	var mu sync.Mutex
+	var stalled []int
+	var stallSeen int32
+	var skipped int64
 	verifkit.Parallel(n, 0, func(i int) {
 		desc := verifkit.JSON(scripts[i])
 		for rep := 0; rep < repeats; rep++ {
+			if atomic.LoadInt32(&stallSeen) >= 3 {
+				// scripts are stalling: stop the bulk run and diagnose those
+				atomic.AddInt64(&skipped, 1)
+				return
+			}
 			rng := r.SubRand(fmt.Sprintf("release-%d", rep), i)
 			var o c17Outcome
 			r.Guard("schedule:", desc, func() {
-				o = c17RunScript(r, scripts[i], desc, pre, rng.Shuffle)
+				o = c17RunScript(r, scripts[i], desc, pre, rng.Shuffle, false)
 			})
+			if o.stalled {
+				atomic.AddInt32(&stallSeen, 1)
+				mu.Lock()
+				stalled = append(stalled, i)
+				mu.Unlock()
+			}
 			if o.aborted {
 				continue
 			}
@@ -564,6 +637,34 @@ func c17ScheduleWorkload(r *verifkit.Run, repeats int, pre bool) {
 			}
 		}
 	})
+	// Scripts that stalled (Tick calls missing, nothing moving) are re-run one
+	// at a time with nothing else running, where "every goroutine is parked"
+	// can be read off a goroutine dump and decides between a lost tick and a
+	// slow machine.
+	sort.Ints(stalled)
+	diagnosed := 0
+	for k, i := range stalled {
+		desc := verifkit.JSON(scripts[i])
+		if k >= 3 || pre == false && k >= 1 {
+			r.Inconclusive("script stalled (not diagnosed): " + desc)
+			continue
+		}
+		var o c17Outcome
+		r.Guard("schedule:", desc, func() {
+			o = c17RunScript(r, scripts[i], desc, pre, r.SubRand("release-diag", i).Shuffle, true)
+		})
+		diagnosed++
+		if o.aborted && !o.lostTicks {
+			r.Inconclusive("script stalled again under diagnosis without reaching quiescence: " + desc)
+		} else if !o.aborted {
+			r.Case(desc, o.nontrivial)
+		}
+	}
+	if skipped > 0 {
+		r.Count("scripts_skipped_after_stalls", skipped)
+	}
+	r.Count("stalled_scripts", int64(len(stalled)))
+	r.Count("stalled_scripts_diagnosed", int64(diagnosed))
 	r.Count("forced_gate_releases", forced)
 	r.Count("tick_calls_overlapping_an_in_flight_call", overl)
 	r.Count("runs_with_unordered_tick_burst", unordered)
